@@ -46,6 +46,7 @@ def run(check: Check) -> None:
     from . import wiring
 
     wiring.p10_activation_degree_lookup(check)  # Aggregated.activation_degree(term): the grouped degree of the term of that name
+    wiring.engine_configure_semantics(check, kinds=("defuzzifier", "aggregation"))  # "unless fixed explicitly": also when fixed through Engine.configure
     infer_type_table(check)
     from .common import memoisation_rule
 
